@@ -559,16 +559,27 @@ fn build_function(function: &Function) -> Result<proc_macro2::TokenStream, anyho
         })
         .transpose()?;
 
+    // The function pointer is bound to a local: give it a name that no argument has
+    let mut local_name = String::from("f");
+    while function
+        .arguments
+        .iter()
+        .any(|a| matches!(a, Argument::Field(name, _) if *name == local_name))
+    {
+        local_name.push('_');
+    }
+    let local = str_to_ident(&local_name);
+
     let calling_convention = function.calling_convention.as_str();
     let function_body = match &function.body {
         FunctionBody::Address { address } => {
             let address = hex_literal(*address);
             quote! {
-                let f:
+                let #local:
                     unsafe extern #calling_convention
                     fn(#(#lambda_arguments),*) #return_type
                 = ::std::mem::transmute(#address as usize);
-                f(#(#call_arguments),*)
+                #local(#(#call_arguments),*)
             }
         }
         FunctionBody::Field {
@@ -584,8 +595,8 @@ fn build_function(function: &Function) -> Result<proc_macro2::TokenStream, anyho
         FunctionBody::Vftable { function_name } => {
             let function_to_call_name = str_to_ident(function_name);
             quote! {
-                let f = std::ptr::addr_of!((*self.vftable()).#function_to_call_name).read();
-                f(#(#call_arguments),*)
+                let #local = std::ptr::addr_of!((*self.vftable()).#function_to_call_name).read();
+                #local(#(#call_arguments),*)
             }
         }
     };
